@@ -72,8 +72,9 @@ fn scenario() -> Scenario {
             cert_fault: None,
             versions: vec![Version { number: 1, this_off: -600, next_off: 86400, crl_next_off: 86400, ee_after_off: 86400, objs: vec![Obj { kind: ObjKind::Roa { extra: 1, maxlen_delta: 0, v6: false }, not_after: 86400, fault: None }], fault: None }],
             extra_res: None,
+            ta_alt: vec![],
         }],
-        steps: vec![Step { publish: vec![0], fail_modules: vec![], offline: false, stale: None }],
+        steps: vec![Step { publish: vec![0], fail_modules: vec![], offline: false, stale: None, foreign_tal_key: vec![], ta_serve: vec![] }],
     }
 }
 
